@@ -14,6 +14,9 @@ other bytes of the layout `keyBytes` are public keys, zeros or the period.
   period `q`. By induction on `d` over the three `Ordering` branches of `update_slice`
   (through `C12.evolve_keygen`, which identifies the evolved key with the closed form `keyAt`).
 * `forward_secure_evolved` — the same statement phrased on the result of `t` successive `update`s.
+* `material_derive` / `forward_secure_concrete` — the bridge to any concrete instance (in particular `conc`,
+  BLAKE2b-256 on bytes): the secret seeds in the concrete key are exactly the seeds at the symbolic positions
+  (`derive root x` = follow `split_slice` along `x`), none of which is an ancestor-or-self of an earlier leaf.
 * `future_derivable` — conversely every period `q ≥ t` is still derivable (so `material` is not
   trivially empty and the key is usable), and `current_leaf_present`.
 
@@ -110,6 +113,62 @@ theorem future_derivable (d : Nat) (s : Path) (t q : Nat) (hq : t ≤ q) (hq2 : 
       refine ⟨x, ?_, ?_⟩
       · simp only [keyAt, h1, ↓reduceIte, material, Option.toList_none, List.append_nil]; exact hx
       · simp only [leafSeed, h2, ↓reduceIte]; exact hpre
+
+/-! ## from symbolic paths to the seeds of any concrete instance -/
+
+/-- the seed reached from `root` by following `path` through `Seed::split_slice` -/
+def derive (P : Prims) (root : P.Seed) : Path → P.Seed
+  | [] => root
+  | .L :: q => derive P (P.split root).1 q
+  | .R :: q => derive P (P.split root).2 q
+
+theorem derive_append_L (P : Prims) (root : P.Seed) (p : Path) :
+    derive P root (p ++ [Dir.L]) = (P.split (derive P root p)).1 := by
+  induction p generalizing root with
+  | nil => rfl
+  | cons x xs ih => cases x <;> simp [derive, ih]
+
+theorem derive_append_R (P : Prims) (root : P.Seed) (p : Path) :
+    derive P root (p ++ [Dir.R]) = (P.split (derive P root p)).2 := by
+  induction p generalizing root with
+  | nil => rfl
+  | cons x xs ih => cases x <;> simp [derive, ih]
+
+/-- the secret seeds a key of *any* instance holds are exactly the images of the symbolic material -/
+theorem material_derive (P : Prims) (root : P.Seed) (d : Nat) (p : Path) (t : Nat) :
+    material P (keyAt P d (derive P root p) t) = (material sym (keyAt sym d p t)).map (derive P root) := by
+  induction d generalizing p t with
+  | zero => simp [keyAt, material]
+  | succ d ih =>
+    by_cases h : t < 2 ^ d
+    · simp only [keyAt, h, ↓reduceIte, material, List.map_append, Option.toList_some, List.map_cons, List.map_nil]
+      rw [← derive_append_L, ← derive_append_R, ih]
+    · simp only [keyAt, h, ↓reduceIte, material, List.map_append, Option.toList_none, List.map_nil, List.append_nil]
+      rw [← derive_append_R, ih]
+
+theorem leafSeed_derive (P : Prims) (root : P.Seed) (d : Nat) (p : Path) (q : Nat) :
+    leafSeed P d (derive P root p) q = derive P root (leafSeed sym d p q) := by
+  induction d generalizing p q with
+  | zero => rfl
+  | succ d ih =>
+    by_cases h : q < 2 ^ d
+    · simp only [leafSeed, h, ↓reduceIte]; rw [← derive_append_L, ih]
+    · simp only [leafSeed, h, ↓reduceIte]; rw [← derive_append_R, ih]
+
+/-- **forward security read on a concrete key** (e.g. `conc`: BLAKE2b-256 seeds on bytes): after `t`
+    evolutions every secret seed in the buffer is the seed at some tree position `x` (reached from the
+    master seed by `split_slice` along `x`) that is *not* an ancestor-or-self of the position of any
+    earlier period's leaf — so the only way from the buffer to an earlier signing key is to invert or
+    collide the seed-splitting hash. -/
+theorem forward_secure_concrete (P : Prims) (root : P.Seed) (d : Nat) (t q : Nat) (ht : t < 2 ^ d) (hq : q < t) :
+    ∀ s ∈ material P (keyAt P d root t), ∃ x : Path, s = derive P root x ∧
+      ¬ (x <+: leafSeed sym d [] q) ∧ leafSeed P d root q = derive P root (leafSeed sym d [] q) := by
+  intro s hs
+  have hm := material_derive P root d [] t
+  simp only [derive] at hm
+  rw [hm, List.mem_map] at hs
+  obtain ⟨x, hx, rfl⟩ := hs
+  exact ⟨x, rfl, forward_secure d [] t q ht hq x hx, by simpa [derive] using leafSeed_derive P root d [] q⟩
 
 /-! ## non-vacuity: depth 2, after 2 updates the buffer holds only the leaf `RL` and the seed `RR` -/
 example : material sym (keyAt sym 2 [] 2) = [[Dir.R, Dir.L], [Dir.R, Dir.R]] := by decide
